@@ -14,6 +14,7 @@ sys.path.insert(0, os.path.join(VERIF, 'lib'))
 sys.path.insert(0, os.path.join(VERIF, 'vx', 'units'))
 
 import kxrun      # noqa: E402
+import nxrun      # noqa: E402
 import registry   # noqa: E402
 import vxrun      # noqa: E402
 
@@ -155,6 +156,80 @@ def kx_obligations(unit_name, desc, tier, hres):
     return obs, failed, undecided
 
 
+# ------------------------------------------------------------------ NX units (bounded stand-ins, native exhaustive)
+def load_nx_unit(name):
+    with open(os.path.join(VERIF, 'nx', 'units', name + '.json')) as f:
+        return json.load(f)
+
+
+def run_nx(units, tier, repo, use_cache=True):
+    """-> {crate: {'tests': {...}, 'cmd':..., 'wall_s':...}}"""
+    th = kxrun.tree_hash(repo)
+    os.makedirs(os.path.join(WORK, 'cache', th), exist_ok=True)
+    lockf = open(os.path.join(WORK, 'cache', th, 'nx.lock'), 'w')
+    fcntl.flock(lockf, fcntl.LOCK_EX)
+    out = {}
+    try:
+        crates = sorted(set(load_nx_unit(u)['crate'] for u in units))
+        for crate in crates:
+            cp = os.path.join(WORK, 'cache', th, 'nx-%s.json' % crate)
+            if use_cache and os.path.exists(cp):
+                with open(cp) as f:
+                    out[crate] = json.load(f)
+                out[crate]['reused'] = True
+                continue
+            work = os.path.join(WORK, 'nx-%s-%d' % (th, os.getpid()))
+            try:
+                try:
+                    kxrun.prepare(repo, work)
+                except (RuntimeError, OSError, subprocess.CalledProcessError) as e:
+                    out[crate] = {'tests': {}, 'error': 'injection: %s' % e, 'wall_s': 0, 'cmd': ''}
+                    continue
+                log('[nx] %s: native exhaustive stand-ins' % crate)
+                r = nxrun.run_tests(work, crate, [], log=os.path.join(WORK, 'cache', th, 'nx-%s.log' % crate))
+                res = {'tests': r['tests'], 'wall_s': r['wall_s'], 'cmd': r['cmd'], 'reused': False}
+                if r['build_failed'] or r['timeout']:
+                    errs = re.findall(r'^error.*$', r['out'], re.M)[:5]
+                    res['error'] = 'timeout' if r['timeout'] else 'work copy does not compile under cfg(verif_nx): ' + ' | '.join(errs)
+                else:
+                    with open(cp, 'w') as f:
+                        json.dump(res, f)
+                out[crate] = res
+            finally:
+                shutil.rmtree(work, ignore_errors=True)
+        return out
+    finally:
+        fcntl.flock(lockf, fcntl.LOCK_UN)
+        lockf.close()
+
+
+def nx_obligations(unit_name, desc, tier, cres):
+    obs, failed, undecided = [], {}, []
+    for t in desc['tests']:
+        if tier != 'thorough' and t.get('tier', 'quick') != 'quick':
+            continue
+        short = t['name'].split('::')[-1]
+        ids = ['%s/%s/%s' % (unit_name, short, o) for o in t['obligations']]
+        for oid in ids:
+            obs.append({'id': oid, 'engine': 'NX', 'kind': 'bounded', 'bound': t.get('bound', ''), 'harness': t['name']})
+        if cres.get('error'):
+            undecided.append('%s: %s' % (t['name'], cres['error']))
+            continue
+        hit = [k for k in cres.get('tests', {}) if k.endswith('::' + t['name']) or k == t['name']]
+        if not hit:
+            undecided.append('%s: test not found in the cargo test output' % t['name'])
+            continue
+        r = cres['tests'][hit[0]]
+        if r['status'] == 'ok':
+            continue
+        msg = r.get('message', '')
+        m = re.search(r'OB (\S+?):', msg)
+        ob = m.group(1).split('/', 1)[-1] if m else t['obligations'][0]
+        lines = [l for l in msg.split('\n') if l.strip() and not l.lstrip().startswith(('stack backtrace', 'at ', 'note:')) and not re.match(r'\s*\d+:', l)]
+        failed.setdefault('%s/%s/%s' % (unit_name, short, ob), []).append(' | '.join(lines[:8])[:1500])
+    return obs, failed, undecided
+
+
 # ------------------------------------------------------------------ locks / known findings
 def load_lock(unit):
     p = os.path.join(VERIF, 'locks', unit + '.json')
@@ -195,6 +270,7 @@ def main(argv):
 
     vx_units = list(P.get('vx', {}))
     kx_units = list(P.get('kx', {}))
+    nx_units = list(P.get('nx', {}))
     vxdir = os.path.join(WORK, 'vx-%d' % os.getpid())
     unit_results = {}
     with cf.ThreadPoolExecutor(max_workers=6) as ex:
@@ -202,6 +278,7 @@ def main(argv):
         kx_res, kx_report = ({}, {})
         if kx_units:
             kx_res, kx_report = run_kx(kx_units, a.tier, a.repo, use_cache=not a.no_cache and not os.environ.get('VERIF_NO_CACHE'))
+        nx_res = run_nx(nx_units, a.tier, a.repo, use_cache=not a.no_cache and not os.environ.get('VERIF_NO_CACHE')) if nx_units else {}
         for f in futs:
             unit_results[futs[f]] = f.result()
 
@@ -280,6 +357,25 @@ def main(argv):
             with open(os.path.join(VERIF, 'locks', u + '.' + a.tier + '.json'), 'w') as f:
                 json.dump({'engine': 'KX', 'tier': a.tier, 'obligations': ids}, f, indent=1)
     evaluations += kx_checks
+    nx_time = 0.0
+    for u in nx_units:
+        desc = load_nx_unit(u)
+        cres = nx_res.get(desc['crate'], {})
+        obs, fl, und = nx_obligations(u, desc, a.tier, cres)
+        all_obs += obs
+        for k, v in fl.items():
+            failed.setdefault(k, []).extend(v)
+        undecided += und
+        nx_time += cres.get('wall_s', 0) or 0
+        assumptions += ['%s: %s' % (u, x) for x in desc.get('assumptions', [])]
+        for fn in desc.get('functions', []):
+            functions.append({'name': fn, 'unit': u, 'role': 'bounded stand-in (native exhaustive execution of the contract)'})
+        for t in desc['tests']:
+            tr = next((v for k, v in cres.get('tests', {}).items() if k.endswith('::' + t['name'])), {})
+            m = re.search(r'NX \S+: (\d+) cases', tr.get('message', '') or '')
+            if m:
+                evaluations += int(m.group(1))
+        evaluations += len(obs)
 
     # ---- verdict
     known = load_known()
@@ -337,6 +433,14 @@ def main(argv):
              'covers': kx_res.get(u, {}).get(h['name'], {}).get('covers'),
              'time_s': kx_res.get(u, {}).get(h['name'], {}).get('time_s'),
              'reused': kx_res.get(u, {}).get(h['name'], {}).get('reused')} for h in kx_select(desc, a.tier)]}
+    for u in nx_units:
+        desc = load_nx_unit(u)
+        cres = nx_res.get(desc['crate'], {})
+        cov['units'][u] = {'engine': 'NX (bounded stand-in)', 'role': P['nx'][u], 'crate': desc['crate'], 'cmd': cres.get('cmd'),
+                           'wall_s': round(cres.get('wall_s', 0) or 0, 1), 'reused': cres.get('reused'),
+                           'tests': [{'name': t['name'], 'bound': t.get('bound', ''),
+                                      'status': next((v['status'] for k, v in cres.get('tests', {}).items() if k.endswith('::' + t['name'])), None)}
+                                     for t in desc['tests']]}
     if kx_report.get('injection'):
         cov['kx_injection'] = kx_report['injection']
     ev = {
